@@ -20,7 +20,10 @@ LEVEL_TEXT = (
     "set equals `restrict` of the full-options result (attributes dropped, deprecated input values/directives "
     "removed); `__type(name:)` equals the entry of `__schema.types`; building a client schema from the full result of "
     "a well-formed schema returns exactly that schema (hence prints identically, has no differences and introspects "
-    "to the same result), and never crashes on any introspection result. The model (introspect / restrict / "
+    "to the same result under every option set); build_client_schema never crashes on the result of the standard query "
+    "for ANY schema value and ANY option set (only its own TypeError/GraphQLError); every result conforms to the "
+    "introspection types (Spec.Conforms against the T1 table of declared fields regenerated from type/introspection.py: "
+    "declared fields only, Non-Null never null, lists where declared, kind/locations from the enums). The model (introspect / restrict / "
     "buildClient) is tied to introspection.py, get_introspection_query.py and build_client_schema.py by a "
     "correspondence run over generated valid schemas x option sets; validation + execution of the query text, "
     "conformance to the introspection types, the restrict relation (Lean `restrict` applied to the implementation's "
@@ -44,6 +47,9 @@ TRUSTED = [
     "`errors is None` are observed on the implementation for every schema x option set explored",
     "T1: option names/defaults and type_depth are re-extracted from get_introspection_query.py on every run "
     "(Gql/Generated/IntrospectionOptions.lean); Props.C18.options_cover_signature fails to build when they change",
+    "T1: the declared shape of introspection_types (object fields with nullability/list-ness, enum value names, the "
+    "types of the __schema/__type meta fields) is re-extracted from type/introspection.py with `ast` on every run "
+    "(Gql/Generated/IntrospectionTypes.lean); introspect_conforms is re-proved against it",
 ]
 ASSUMPTIONS = [
     "type references are wrapped at most type_depth (= 9) times: a deeper reference is cut off by the standard query "
@@ -53,8 +59,9 @@ ASSUMPTIONS = [
     "key order inside JSON objects is not compared (dict equality); list order is",
 ]
 EXPLANATION = (
-    "Theorems: introspect_restrict, type_lookup, client_roundtrip, reintrospect, buildClient_no_crash_on_introspect, "
-    "client_prints_identically/no_changes corollaries. Correspondence: introspection_from_schema(s, **o) vs "
+    "Theorems: introspect_restrict(_all), type_lookup, client_roundtrip, client_indistinguishable, reintrospect (all "
+    "option sets), buildClient_no_crash_on_introspect (any schema value, any option set), introspect_conforms / "
+    "type_lookup_conforms (against the regenerated table of introspection_types). Correspondence: introspection_from_schema(s, **o) vs "
     "introspect, build_client_schema vs buildClient. Oracles on the implementation: validate/execute, restrict "
     "relation via Lean restrict, __type lookups, client round trip, conformance, ad-hoc selections vs projection."
 )
@@ -86,7 +93,102 @@ def read_options(repo):
     return names, defs, depth
 
 
+KEY_CTOR = {
+    "__schema": "schema", "description": "description", "queryType": "queryType", "mutationType": "mutationType",
+    "subscriptionType": "subscriptionType", "types": "types", "directives": "directives", "name": "name", "kind": "kind",
+    "isRepeatable": "isRepeatable", "isDeprecated": "isDeprecated", "deprecationReason": "deprecationReason",
+    "locations": "locations", "args": "args", "specifiedByURL": "specifiedByURL", "isOneOf": "isOneOf", "fields": "fields",
+    "inputFields": "inputFields", "interfaces": "interfaces", "enumValues": "enumValues", "possibleTypes": "possibleTypes",
+    "type": "type", "defaultValue": "defaultValue", "ofType": "ofType",
+}
+
+
+def read_introspection_types(repo):
+    """The declared shape of the meta-schema, parsed from type/introspection.py with `ast` (no import):
+    ({object type name: [(field, type expr)]}, {enum name: [value names]}, {meta field: type expr}).
+    A type expr is ("named", n) | ("list", t) | ("nonNull", t)."""
+    src = (Path(repo) / "src/graphql/type/introspection.py").read_text()
+    tree = pyast.parse(src)
+    scalars = {"GraphQLString": "String", "GraphQLBoolean": "Boolean", "GraphQLInt": "Int", "GraphQLFloat": "Float", "GraphQLID": "ID"}
+    var_type = {}  # python variable -> GraphQL type name
+    field_classes = {}  # class name -> dict node
+    objects_src, enums = {}, {}
+    metas_src = {}
+
+    def kw(call, name):
+        for k in call.keywords:
+            if k.arg == name:
+                return k.value
+        return None
+
+    for node in tree.body:
+        if isinstance(node, pyast.ClassDef) and any(isinstance(b, pyast.Name) and b.id == "GraphQLFieldMap" for b in node.bases):
+            new = next(n for n in node.body if isinstance(n, pyast.FunctionDef) and n.name == "__new__")
+            ret = next(n for n in pyast.walk(new) if isinstance(n, pyast.Return))
+            if not isinstance(ret.value, pyast.Dict):
+                raise ValueError(f"{node.name}.__new__ does not return a dict literal")
+            field_classes[node.name] = ret.value
+        target = value = None
+        if isinstance(node, pyast.AnnAssign) and isinstance(node.target, pyast.Name):
+            target, value = node.target.id, node.value
+        elif isinstance(node, pyast.Assign) and len(node.targets) == 1 and isinstance(node.targets[0], pyast.Name):
+            target, value = node.targets[0].id, node.value
+        if target is None or not isinstance(value, pyast.Call) or not isinstance(value.func, pyast.Name):
+            continue
+        fn = value.func.id
+        if fn == "GraphQLObjectType":
+            name = kw(value, "name").value
+            var_type[target] = name
+            objects_src[name] = kw(value, "fields").id
+        elif fn == "GraphQLEnumType":
+            name = kw(value, "name").value
+            var_type[target] = name
+            vals = kw(value, "values")
+            enums[name] = [k.value for k in vals.keys]
+        elif fn == "GraphQLField" and target.endswith("MetaFieldDef"):
+            metas_src[target] = value.args[0]
+
+    def ty(e):
+        if isinstance(e, pyast.Call) and isinstance(e.func, pyast.Name) and e.func.id in ("GraphQLNonNull", "GraphQLList"):
+            return ("nonNull" if e.func.id == "GraphQLNonNull" else "list", ty(e.args[0]))
+        if isinstance(e, pyast.Name):
+            if e.id in scalars:
+                return ("named", scalars[e.id])
+            if e.id in var_type:
+                return ("named", var_type[e.id])
+        raise ValueError(f"introspection.py: unrecognised type expression {pyast.dump(e)[:80]}")
+
+    objects = {}
+    for name, cls in objects_src.items():
+        d = field_classes[cls]
+        fields = []
+        for k, v in zip(d.keys, d.values):
+            if not (isinstance(v, pyast.Call) and isinstance(v.func, pyast.Name) and v.func.id == "GraphQLField"):
+                raise ValueError(f"{cls}: field {k.value} is not a GraphQLField(...) call")
+            fields.append((k.value, ty(v.args[0])))
+        objects[name] = fields
+    metas = {k: ty(v) for k, v in metas_src.items()}
+    return objects, enums, metas
+
+
+def _lean_ty(t):
+    if t[0] == "named":
+        return f'.named {json.dumps(t[1])}'
+    return f".{t[0]} ({_lean_ty(t[1])})"
+
+
+def _lean_key(k):
+    if k in KEY_CTOR:
+        return "." + KEY_CTOR[k]
+    return ".other [" + ", ".join(str(ord(c)) for c in k) + "]"
+
+
+def _cps(s):
+    return "[" + ", ".join(str(ord(c)) for c in s) + "]"
+
+
 def extract(repo, lean):
+    changed = []
     names, defs, depth = read_options(repo)
     body = (
         "/- T1: regenerated from src/graphql/utilities/get_introspection_query.py by checks/c18.py (do not edit). -/\n"
@@ -100,12 +202,34 @@ def extract(repo, lean):
         f"def introspectionTypeDepth : Nat := {depth}\n\n"
         "end Gql.Generated\n"
     )
-    path = Path(lean) / "Gql" / "Generated" / "IntrospectionOptions.lean"
-    path.parent.mkdir(parents=True, exist_ok=True)
-    if path.exists() and path.read_text() == body:
-        return []
-    path.write_text(body)
-    return [str(path.relative_to(lean))]
+    objects, enums, metas = read_introspection_types(repo)
+    obj_rows = ",\n   ".join(
+        "(" + json.dumps(n) + ", [" + ", ".join(f"({_lean_key(k)}, {_lean_ty(t)})" for k, t in fs) + "])"
+        for n, fs in objects.items()
+    )
+    enum_rows = ",\n   ".join(
+        "(" + json.dumps(n) + ",\n     [" + ", ".join(_cps(v) for v in vs) + "])" for n, vs in enums.items()
+    )
+    body2 = (
+        "import Gql.Types.IntroConform\n"
+        "/- T1: the declared shape of `introspection_types`, regenerated from src/graphql/type/introspection.py by\n"
+        "   checks/c18.py (do not edit): per object type its fields with declared types, per enum its value names\n"
+        "   (as code points), and the declared types of the `__schema` / `__type` meta fields. -/\n"
+        "namespace Gql.Generated\nopen Gql.Types\n\n"
+        "def introspectionTable : ITable where\n"
+        "  objects :=\n  [" + obj_rows + "]\n"
+        "  enums :=\n  [" + enum_rows + "]\n\n"
+        f"def schemaMetaFieldType : ITy := {_lean_ty(metas['SchemaMetaFieldDef'])}\n\n"
+        f"def typeMetaFieldType : ITy := {_lean_ty(metas['TypeMetaFieldDef'])}\n\n"
+        "end Gql.Generated\n"
+    )
+    for fname, text in (("IntrospectionOptions.lean", body), ("IntrospectionTypes.lean", body2)):
+        path = Path(lean) / "Gql" / "Generated" / fname
+        path.parent.mkdir(parents=True, exist_ok=True)
+        if not (path.exists() and path.read_text() == text):
+            path.write_text(text)
+            changed.append(str(path.relative_to(lean)))
+    return changed
 
 
 # ----------------------------------------------------------------------------- implementation side
@@ -844,7 +968,7 @@ def explore(ctx) -> Report:
     n = len(names)
     every = all_option_bits(n)
     if ctx.tier == "quick":
-        n_schemas, n_adhoc = (28, 9) if not ctx.escalate else (64, 12)
+        n_schemas, n_adhoc = (48, 10) if not ctx.escalate else (96, 12)
         # a seeded sample of 16 option sets per schema (different per schema; full and the defaults always in)
         dflt = "".join("1" if d else "0" for d in defaults)
         option_sets = []
@@ -853,7 +977,7 @@ def explore(ctx) -> Report:
             sample = rng.sample(every, 14)
             option_sets.append(list(dict.fromkeys(["1" * n, dflt, "0" * n] + sample))[:16])
     else:
-        n_schemas, n_adhoc = 64, 30
+        n_schemas, n_adhoc = 128, 30
         option_sets = [every]
     cases = make_cases(ctx, n_schemas)
     # one driver process per chunk (process start-up dominates on a loaded machine): interleave cases so
